@@ -69,7 +69,7 @@ def run(ctx):
                 followed = bool(later) and fx.path.outcome[0] == "return"
             ck.ob("C01-R1", tx.fn, "pass_through-insertion(%s):key-is-or-becomes-an-input-pressed-key" % tx.kind, guarded or followed, site=tx.site(),
                   detail=None if (guarded or followed) else "a key enters pass_through_keys without `input_pressed_keys.contains(key)` and without being pushed onto input_pressed_keys on the way to return")
-    ck.floor("C01-R1", "pass_through-insertion-sites", n_r1, 2)
+    ck.floor("C01-R1", "pass_through-insertion-sites", n_r1, 1)
 
     # ---------------- R2 / R6 / R7: a key goes up
     n_up = 0
@@ -101,7 +101,7 @@ def run(ctx):
             order = am is not None and pt is not None
             ck.ob("C01-R7", fn, "key-goes-up:mapping-sweep,pass_through-sweep-and-input_pressed-removal-on-one-path", order, site=e.ev.span)
             seqs[fn] = (am is not None, pt is not None, order)
-    ck.floor("C01-R7", "key-goes-up-implementations", len(seqs), 2)
+    ck.floor("C01-R7", "key-goes-up-implementations", len(seqs), 1)
     ck.ob("C01-R7", "-", "sibling-implementations-agree", len(set(seqs.values())) == 1, detail=str({k[len(MOD):]: v for k, v in seqs.items()}))
     ok_f, why = ktloops.fails_when_released_table(ctx)
     ck.ob("C01-R6", MOD + "fails_when_released", "true-iff-key-in-trigger", ok_f, detail=why or None)
@@ -138,7 +138,7 @@ def run(ctx):
                   detail=None if M is not None else "key %s is not an element of some mapping's `to` and not guarded by `to.contains`" % show(key)[:50])
             if M is not None:
                 reg.setdefault(tx.fn, set()).add(M)
-    ck.floor("C01-R3", "mapped_output-insertion-sites", n_r3, 3)
+    ck.floor("C01-R3", "mapped_output-insertion-sites", n_r3, 1)
     for fn, Ms in sorted(reg.items()):
         b = ctx.body(fn)
         one = len(Ms) == 1
